@@ -32,7 +32,7 @@ GENS = ["RandMeth", "IncomprRandMeth", "Fourier"]
 
 def generate(tier, seed):
     rng = np.random.default_rng([seed, 11])
-    n = {"quick": 6, "thorough": 60}[tier]
+    n = {"quick": 6, "thorough": 150}[tier]
     cases = []
     for rep in range(n):
         for g in GENS:
